@@ -36,6 +36,32 @@ def jsonable(x, depth=0):
     return repr(x)
 
 
+def replay_model(eng, prop, o):
+    """-> (exit status of the replay program, its path, its last output line) or None when not applicable"""
+    from . import replay_gen
+    m = re.match(r"(?P<mod>[^:]+):(?P<qn>[^:\[]+)(\[(?P<beh>[^\]]+)\])?:", o["name"])
+    if not m:
+        return None
+    c = eng.contracts.get(m.group("mod"), m.group("qn"), m.group("beh") or "default")
+    fi = eng.repo.func(m.group("mod"), m.group("qn")) if c is not None else None
+    try:
+        src = replay_gen.make(c, fi, o["model"], o["name"])
+    except Exception:
+        return None
+    if src is None:
+        return None
+    rp = os.path.join(VERIF, "replays", prop, re.sub(r"[^A-Za-z0-9_.@\[\]-]", "_", o["name"]) + ".replay.py")
+    os.makedirs(os.path.dirname(rp), exist_ok=True)
+    open(rp, "w").write(src)
+    env = dict(os.environ, PYVC_REPO=eng.repo.root, PYVC_VERIF=VERIF, PYTHONDONTWRITEBYTECODE="1")
+    try:
+        pr = subprocess.run([VENV_PY, rp], cwd=eng.repo.root, env=env, capture_output=True, text=True, timeout=120)
+    except Exception:
+        return None
+    out = (pr.stdout.strip().splitlines() or [""])[-1]
+    return pr.returncode, rp, out
+
+
 def load_props():
     path = os.path.join(VERIF, "contracts", "_properties.py")
     ns = {}
@@ -428,6 +454,14 @@ def _main(a, t0):
                    "failing_input_replays": bounded_replays, "note": "verifier output for an obligation that is not discharged; "
                    "replay of the model on the real code is done by the bounded stand-in of the property"}),
                   open(rp, "w"), indent=1, default=repr)
+        # the solver's own counterexample, replayed on the real code where the contract is over plain data
+        replayed = None
+        if o["verdict"] == "refuted" and isinstance(o.get("model"), dict):
+            replayed = replay_model(eng, prop, o)
+        if replayed is not None and replayed[0] == 1:
+            violations.append((replayed[1], f"obligation {o['name']} refuted; the verifier's counterexample fails on the real code: "
+                               + replayed[2][:300], True))
+            continue
         if in_ledger or o["verdict"] == "refuted":
             # the named obligation is the violation; when the bounded stand-in of the property also
             # found an input that fails on the real code, that input is the replayed counterexample
